@@ -820,7 +820,7 @@ def run_pairs(ctx, spec):
                 cid = {"kind": "pairs", "first": a, "second": b, "seed": ctx.seed}
                 ctx.judged()
                 ctx.monitor("c19:pairs")
-                cap = rb.get("captured") or [{}]
+                cap = [_ds.capture_of(rb, b) or {}]
                 if rb.get("outcome") != "ok" or len(rb["requests"]) != 1 or \
                         not _ds.same_data(rb["data"], _ds.expected_desc(cap[0].get("url", ""), 40)):
                     ctx.violation("result_depends_on_previously_loaded_dataset", cid,
